@@ -99,6 +99,22 @@ def lift(inst, wd):
     return out
 
 
+def seq_inline(ll, wd):
+    """engine 'cbmc-seq': inline everything into the thread roots with LLVM's own inliner, so that a
+    root contains all its atomic operations / blocking calls directly and can be made resumable"""
+    txt = open(ll).read()
+    txt = re.sub(r'\bnoinline\b', '', txt)
+    txt = re.sub(r'\boptnone\b', '', txt)
+    pre = os.path.join(wd, 'h_pre.ll')
+    open(pre, 'w').write(txt)
+    out = os.path.join(wd, 'h_inl.ll')
+    rc, o, e, t = sh(['opt-14', '-S', '-passes=cgscc(inline),function(sroa,early-cse,simplifycfg)',
+                      '-inline-threshold=100000000', pre, '-o', out], timeout=300)
+    if rc != 0:
+        raise Inconclusive('opt (inlining for the sequentialised encoding) failed: ' + e[-800:])
+    return out
+
+
 def demangle(names):
     if not names:
         return {}
@@ -130,6 +146,15 @@ def cbmc_cmd(cfile, inst, witness, trace=False):
     if inst.get('leak_check'):
         cmd.append('--memory-leak-check')
     cmd += ['-DVF_NTHREADS=%d' % nthr]
+    if inst.get('engine') == 'cbmc-seq':
+        steps = inst.get('steps', 8)
+        cmd += ['-DVF_SEQ=1', '-DVF_STEPS=%d' % steps, '--max-field-sensitivity-array-size',
+                str(inst.get('fs_array', 4))]
+        if 'preempts' in inst:
+            cmd += ['-DVF_PREEMPTS=%d' % inst['preempts']]
+        i = cmd.index('--unwindset')
+        cmd[i + 1] += ',vf_entry.0:%d,vf_others_done.0:%d,vf_all_done.0:%d,vf_any_enabled.0:%d' % (
+            steps + 1, nthr + 1, nthr + 1, nthr + 1)
     for k, v in inst.get('rt_defs', {}).items():
         cmd.append('-D%s=%s' % (k, v))
     if witness:
@@ -198,6 +223,18 @@ def extract_inputs(trace):
                     ins[int(m.group(1))] = int(re.sub(r'[a-zA-Z]+$', '', d))
                 except ValueError:
                     pass
+    if not ins:
+        # scalar input log (seq engine): assignments to vf_in_last in trace order
+        out = []
+        for s in trace:
+            if s.get('stepType') == 'assignment' and s.get('lhs') == 'vf_in_last':
+                v = s.get('value') or {}
+                try:
+                    out.append(int(v['binary'], 2) if v.get('binary') is not None
+                               else int(re.sub(r'[a-zA-Z]+$', '', v.get('data', ''))))
+                except (ValueError, KeyError):
+                    pass
+        return out
     n = None
     for s in trace:
         if s.get('stepType') == 'assignment' and s.get('lhs') == 'vf_inlog_n':
@@ -211,6 +248,20 @@ def extract_inputs(trace):
         out.append(ins[i])
         i += 1
     return out
+
+
+def extract_schedule_seq(trace):
+    """seq engine: every visible operation assigns the running thread to vf_vis_t"""
+    sched = []
+    for s in trace:
+        if s.get('stepType') == 'assignment' and s.get('lhs') == 'vf_vis_t':
+            v = s.get('value') or {}
+            try:
+                t = int(v['binary'], 2) if v.get('binary') is not None else int(re.sub(r'[a-zA-Z]+$', '', v.get('data', '')))
+            except (ValueError, KeyError):
+                continue
+            sched.append({'thread': t, 'site': -2})
+    return sched
 
 
 def extract_schedule(trace, site_lines, cfile):
@@ -237,10 +288,14 @@ def prepare_instance(inst, wd):
     os.makedirs(wd, exist_ok=True)
     t0 = time.time()
     ll = lift(inst, wd)
+    seq = inst.get('engine') == 'cbmc-seq'
+    if seq:
+        ll = seq_inline(ll, wd)
     try:
         mod = llir.load(ll)
         src, em = ir2c.translate(mod, inst.get('roots', ['vf_main']),
-                                 {'exceptions': inst.get('exceptions'), 'nsw_check': inst.get('nsw_check')})
+                                 {'exceptions': inst.get('exceptions'), 'nsw_check': inst.get('nsw_check'),
+                                  'seq': seq, 'nthreads': inst.get('nthreads', 5)})
     except llir.Unsupported as e:
         raise Inconclusive('translator: unsupported construct: %s' % e)
     allowed = set(inst.get('allow_externals', []))
@@ -362,7 +417,8 @@ def run_instance(inst, tier):
         tr = r.get('trace', [])
         f = {'class': c, 'description': r['description'], 'property': r['property'],
              'inputs': extract_inputs(tr),
-             'schedule': extract_schedule(tr, prep['site_lines'], prep['cfile']),
+             'schedule': (extract_schedule_seq(tr) if inst.get('engine') == 'cbmc-seq'
+                          else extract_schedule(tr, prep['site_lines'], prep['cfile'])),
              'location': (r.get('sourceLocation') or {}).get('function')}
         rec['failures'].append(f)
     rec['status'] = 'violated' if fails else 'holds'
